@@ -587,9 +587,9 @@ def suites(tier):
               cases=exhaustive_cases(4 if tier == "quick" else 6),
               exhaustive=True),
         Suite("schedules-sampled", check_sim, strategy=sampled_cases(),
-              examples={"quick": 300, "thorough": 3000}),
+              examples={"quick": 220, "thorough": 3000}),
         Suite("align", check_align, strategy=align_cases(),
-              examples={"quick": 150, "thorough": 1500}),
+              examples={"quick": 110, "thorough": 1500}),
         Suite("real-pools", check_real, strategy=sampled_cases(real=True),
               examples={"quick": 25, "thorough": 150}),
     ]
